@@ -106,9 +106,28 @@ def duck_pm(lto=None, apu='real', aircraft_class=None, edb=None):
     return ns
 
 
-def evaluate(opts, traj, fuel, pm, fuel_name='conventional_jetA'):
-    """One evaluation on the real code under a freshly loaded configuration.
-    Returns ('ok', Emissions) or ('raise', exception)."""
+def scaled_lto_pm():
+    """A model whose LTO data went through ordinary arithmetic (x 1.0: same numbers), which is the
+    documented way to scale LTO data and yields MUTABLE value containers. Built fresh on every call."""
+    from AEIC.performance.types import LTOPerformance
+
+    base = real_pm()
+    l0 = base.lto
+    ns = types.SimpleNamespace()
+    ns.edb = base.edb
+    ns.lto = LTOPerformance(
+        source=l0.source, ICAO_UID=l0.ICAO_UID, rated_thrust=l0.rated_thrust, thrust_pct=l0.thrust_pct * 1.0,
+        fuel_flow=l0.fuel_flow * 1.0, EI_NOx=l0.EI_NOx * 1.0, EI_HC=l0.EI_HC * 1.0, EI_CO=l0.EI_CO * 1.0,
+    )  # fmt: skip
+    ns.apu = base.apu
+    ns.aircraft_class = base.aircraft_class
+    ns.number_of_engines = base.number_of_engines
+    return ns
+
+
+def evaluate(opts, traj, fuel, pm, fuel_name='conventional_jetA', reload=True):
+    """One evaluation on the real code under a freshly loaded configuration (reload=False: under
+    the configuration that is already active). Returns ('ok', Emissions) or ('raise', exception)."""
     from vf import env
 
     from AEIC.emissions import compute_emissions
@@ -116,7 +135,8 @@ def evaluate(opts, traj, fuel, pm, fuel_name='conventional_jetA'):
     em = dict(opts)
     em['fuel'] = fuel_name
     try:
-        env.load_config(emissions=em)
+        if reload:
+            env.load_config(emissions=em)
     except Exception as ex:  # configuration refused: a refusal outcome
         return 'config-raise', ex
     try:
